@@ -16,7 +16,12 @@ def _discover():
     here = os.path.dirname(os.path.abspath(__file__))
     for path in sorted(glob.glob(os.path.join(here, "c[0-9][0-9].py"))):
         name = os.path.basename(path)[:-3]
-        mod = importlib.import_module("harness." + name)
+        try:
+            mod = importlib.import_module("harness." + name)
+        except Exception as ex:  # a module under construction must not take the other checks down
+            import sys
+            print("warning: harness/%s.py cannot be imported: %r" % (name, ex), file=sys.stderr)
+            continue
         cfg = dict(getattr(mod, "CONFIG"))
         cfg["module"] = "harness." + name
         cfg.setdefault("rule", getattr(mod, "RULE", ""))
